@@ -95,6 +95,22 @@ Lemma kwalk_S f h u root pm follow cur work cnt mustdir :
   end.
 Proof. reflexivity. Qed.
 
+(* the test made before a name is looked up IN the view's root directory (the kernel's may_lookup there) *)
+Definition root_check (h : heap) (v : view) (vol parent : nat) : bool :=
+  Nat.eqb parent vol && negb (match get h parent with
+                              | Some n => check_permission (node_meta n) OpenLookup (v_user v)
+                              | None => false end).
+
+Lemma root_check_kperm (h : heap) (v : view) (vol parent : nat) :
+  root_check h v vol parent = Nat.eqb parent vol && negb (kperm h parent 1 (v_user v)).
+Proof.
+  unfold root_check, kperm. destruct (get h parent); [|reflexivity]. rewrite perm_lookup_agree. reflexivity.
+Qed.
+
+Lemma root_check_pass (h : heap) (v : view) (vol parent : nat) :
+  kperm h parent 1 (v_user v) = true -> root_check h v vol parent = false.
+Proof. intros H. rewrite root_check_kperm, H. apply andb_false_r. Qed.
+
 Lemma search_loop_S f h v slm vol parent pi slcount saved :
   search_loop (S f) h v slm vol parent pi slcount saved =
   let '(ok, pi1) := pi_next (v_os v) pi in
@@ -103,6 +119,9 @@ Lemma search_loop_S f h v slm vol parent pi slcount saved :
   else
     let name := pi_part pi1 in
     let last := pi_is_last pi1 in
+    if root_check h v vol parent
+    then {| sr_parent := Some parent; sr_child := None; sr_pi := out_pi pi1 saved; sr_err := EPermDenied |}
+    else
     match alookup str_eqb name (children h parent) with
     | None =>
         {| sr_parent := Some parent; sr_child := None; sr_pi := out_pi pi1 saved;
@@ -161,7 +180,7 @@ Proof.
   - cbn [search_loop] in Hr. subst r. cbn [sr_err] in Hne. congruence.
   - rewrite search_loop_S in Hr. rewrite search_loop_S.
     destruct (pi_next (v_os v) pi) as [ok pi1]. cbv zeta in *.
-    destruct (negb ok); [exact Hr|].
+    destruct (negb ok); [exact Hr|]. destruct (root_check h v vol parent); [exact Hr|].
     destruct (alookup str_eqb (pi_part pi1) (children h parent)) as [c|]; [|exact Hr].
     destruct (get h c) as [[ch m|d k i m|link m]|]; try exact Hr.
     + destruct (pi_is_last pi1); [exact Hr|].
@@ -189,6 +208,9 @@ Section Iter.
     search_loop (S f) h v slm vol parent pi slcount saved =
       let pi1 := on_comp (done ++ c :: todo) done c in
       let last := is_nil todo in
+      if root_check h v vol parent
+      then {| sr_parent := Some parent; sr_child := None; sr_pi := out_pi pi1 saved; sr_err := EPermDenied |}
+      else
       match alookup str_eqb c (children h parent) with
       | None =>
           {| sr_parent := Some parent; sr_child := None; sr_pi := out_pi pi1 saved;
@@ -312,17 +334,17 @@ Section Rewalk.
   (* implementation: [length x] iterations lead from [d0] to the end of [x], more to come *)
   Lemma search_rewalk : forall (x : list str) (d0 d : nat) (pre y cs : list str) f slm vol pi slcount saved,
     y <> [] -> cs = pre ++ x ++ y -> Forall comp_ok cs -> before cs pre pi ->
-    dwalk h u d0 x = Some d ->
+    dwalk h u d0 x = Some d -> kperm h d0 1 u = true ->
     exists pi', before cs (pre ++ x) pi' /\
       search_loop (length x + f) h v slm vol d0 pi slcount saved = search_loop f h v slm vol d pi' slcount saved.
   Proof.
-    induction x as [|n x IH]; intros d0 d pre y cs f slm vol pi slcount saved Hy Hcs Hok Hb Hw.
+    induction x as [|n x IH]; intros d0 d pre y cs f slm vol pi slcount saved Hy Hcs Hok Hb Hw Hp0.
     - injection Hw as <-. exists pi. rewrite app_nil_r. split; [exact Hb|reflexivity].
     - apply dwalk_cons_inv in Hw as (c & H1 & H2 & H3 & H4).
       destruct (node_is_dir_get _ _ H2) as (ch & m & Hg).
       cbn [length plus]. cbn [app] in Hcs. subst cs.
       rewrite (search_loop_on h v Hos (length x + f) slm vol d0 pi slcount saved pre (x ++ y) n Hok Hb). cbv zeta.
-      rewrite H1, Hg, (is_nil_false _ _ (app_ne_r _ x y Hy)), <- (kperm_dir _ _ _ _ u Hg), H3.
+      rewrite (root_check_pass h v vol d0 Hp0), H1, Hg, (is_nil_false _ _ (app_ne_r _ x y Hy)), <- (kperm_dir _ _ _ _ u Hg), H3.
       destruct (IH c d (pre ++ [n]) y (pre ++ n :: x ++ y) f slm vol (on_comp (pre ++ n :: x ++ y) pre n) slcount saved)
         as (pi' & Hb' & E); auto.
       + rewrite <- app_assoc. reflexivity.
@@ -332,18 +354,18 @@ Section Rewalk.
 
   (* implementation: the whole remaining path is a directory walk *)
   Lemma search_rewalk_full : forall (x : list str) (d0 d : nat) (pre cs : list str) f slm vol pi slcount saved,
-    cs = pre ++ x -> Forall comp_ok cs -> before cs pre pi -> dwalk h u d0 x = Some d ->
+    cs = pre ++ x -> Forall comp_ok cs -> before cs pre pi -> dwalk h u d0 x = Some d -> kperm h d0 1 u = true ->
     let r := search_loop (S (length x + f)) h v slm vol d0 pi slcount saved in
     sr_err r = EFileExists /\ sr_child r = Some d /\ exists p, sr_parent r = Some p.
   Proof.
-    induction x as [|n x IH]; intros d0 d pre cs f slm vol pi slcount saved Hcs Hok Hb Hw.
+    induction x as [|n x IH]; intros d0 d pre cs f slm vol pi slcount saved Hcs Hok Hb Hw Hp0.
     - injection Hw as <-. rewrite app_nil_r in Hcs. subst cs. cbn [length plus]. cbv zeta.
       rewrite (search_loop_end h v Hos f slm vol d0 pi slcount saved pre Hok Hb). cbn. eauto.
     - apply dwalk_cons_inv in Hw as (c & H1 & H2 & H3 & H4).
       destruct (node_is_dir_get _ _ H2) as (ch & m & Hg). subst cs.
       cbn [length plus]. cbv zeta.
       rewrite (search_loop_on h v Hos (S (length x + f)) slm vol d0 pi slcount saved pre x n Hok Hb). cbv zeta.
-      rewrite H1, Hg. destruct x as [|n2 x].
+      rewrite (root_check_pass h v vol d0 Hp0), H1, Hg. destruct x as [|n2 x].
       + cbn [is_nil]. injection H4 as <-. cbn. eauto.
       + cbn [is_nil]. rewrite <- (kperm_dir _ _ _ _ u Hg), H3.
         apply (IH c d (pre ++ [n]) (pre ++ n :: n2 :: x) f slm vol); auto.
@@ -452,6 +474,7 @@ Section Bridge.
     assert (Hc : good_comp c) by (apply Forall_app in Hg as (_ & Hg); inversion Hg; assumption).
     destruct (good_comp_kind _ Hc) as (K1 & K2).
     rewrite (search_loop_on h v Hos fi slm vol parent pi slcount saved done todo c Hok Hb).
+    rewrite (root_check_pass h v vol parent Hp).
     rewrite kwalk_S, Hd, Hp. cbn [negb andb]. cbv zeta. rewrite K1, K2.
     cbn [link_free] in Hlf.
     assert (Hat : precise_of slm = true ->
@@ -587,58 +610,57 @@ Section BridgeTop.
   Notation u := (v_user v).
   Notation root := (v_root v).
 
-  (* The kernel tests the search bit of a directory BEFORE looking a name up in it, the implementation
-     when it ENTERS a directory as a non-final child.  On every directory below the root the two tests
-     coincide (same bit, same moment relative to the other lookups); the root's own bit is tested by the
-     kernel only: that is hypothesis [kperm h root 1 u = true], which holds unconditionally for the
-     administrator ([bridge_nolink_admin]); [bridge_root_unsearchable] is the complementary case. *)
-  Theorem bridge_nolink (cs : list str) (slm : slmode) (follow md : bool) (fi fk : nat) (vol kroot : nat) :
-    Forall good_comp cs -> link_free h root cs = true ->
-    node_is_dir h root = true -> kperm h root 1 u = true ->
-    length cs < fi -> length cs < fk -> (md = false \/ cs = []) ->
-    walk_rel h u root (precise_of slm)
-      (search_loop fi h v slm vol root (pi_new Linux (abs_path cs)) 0 None)
-      (kwalk fk h u kroot false follow root cs 0 md).
+  (* The kernel tests the search bit of a directory BEFORE looking a name up in it; the implementation
+     tests it when it ENTERS a directory as a non-final child, and - for the view's root, which is never
+     entered as a child - before each lookup made in the root ([root_check]).  The two disciplines
+     coincide: same bit, same moment relative to the other lookups; no hypothesis on the permissions is
+     needed ([bridge_root_unsearchable] is the case of a root the caller may not search). *)
+  Theorem bridge_root_unsearchable (c : str) (cs : list str) (slm : slmode) (follow pm md : bool)
+          (fi fk cnt slcount kroot : nat) (saved : option piter) (pi : piter) :
+    Forall comp_ok (c :: cs) -> before (c :: cs) [] pi ->
+    node_is_dir h root = true -> kperm h root 1 u = false ->
+    sr_err (search_loop (S fi) h v slm root root pi slcount saved) = EPermDenied
+    /\ kwalk (S fk) h u kroot pm follow root (c :: cs) cnt md = WErr EACCES.
   Proof.
-    intros Hg Hlf Hd Hp Hfi Hfk Hmd. destruct cs as [|c cs].
-    - destruct fi as [|fi]; [cbn [length] in Hfi; lia|]. destruct fk as [|fk]; [cbn [length] in Hfk; lia|].
-      rewrite (search_loop_end h v Hos fi slm vol root _ 0 None [] (Forall_nil _) (pi_new_before [])).
-      rewrite kwalk_S. cbn [walk_rel sr_err sr_child sr_parent]. split; [reflexivity|]. split; [reflexivity|].
-      split; [apply node_is_dir_valid; exact Hd|]. split; [eauto|]. intros [=].
-    - destruct Hmd as [->|Hmd]; [|discriminate].
-      apply (bridge_nolink_at h v Hos (c :: cs) [] root); auto; try lia; try discriminate.
-      apply pi_new_before.
+    intros Hok Hb Hd Hp. split.
+    - rewrite (search_loop_on h v Hos fi slm root root pi slcount saved [] cs c Hok Hb). cbv zeta.
+      rewrite root_check_kperm, Nat.eqb_refl, Hp. reflexivity.
+    - rewrite kwalk_S, Hd, Hp. reflexivity.
   Qed.
 
-  Corollary bridge_nolink_admin (cs : list str) (slm : slmode) (follow md : bool) (fi fk : nat) (vol kroot : nat) :
-    us_admin u = true ->
+  Theorem bridge_nolink (cs : list str) (slm : slmode) (follow md : bool) (fi fk : nat) (kroot : nat) :
     Forall good_comp cs -> link_free h root cs = true -> node_is_dir h root = true ->
     length cs < fi -> length cs < fk -> (md = false \/ cs = []) ->
     walk_rel h u root (precise_of slm)
-      (search_loop fi h v slm vol root (pi_new Linux (abs_path cs)) 0 None)
+      (search_loop fi h v slm root root (pi_new Linux (abs_path cs)) 0 None)
       (kwalk fk h u kroot false follow root cs 0 md).
   Proof.
-    intros Ha Hg Hlf Hd. apply bridge_nolink; auto.
-    destruct (node_is_dir_get _ _ Hd) as (ch & m & Hgr). exact (kperm_admin _ _ _ _ _ Ha Hgr).
+    intros Hg Hlf Hd Hfi Hfk Hmd. destruct cs as [|c cs].
+    - destruct fi as [|fi]; [cbn [length] in Hfi; lia|]. destruct fk as [|fk]; [cbn [length] in Hfk; lia|].
+      rewrite (search_loop_end h v Hos fi slm root root _ 0 None [] (Forall_nil _) (pi_new_before [])).
+      rewrite kwalk_S. cbn [walk_rel sr_err sr_child sr_parent]. split; [reflexivity|]. split; [reflexivity|].
+      split; [apply node_is_dir_valid; exact Hd|]. split; [eauto|]. intros [=].
+    - destruct Hmd as [->|Hmd]; [|discriminate]. destruct (kperm h root 1 u) eqn:Hp.
+      + apply (bridge_nolink_at h v Hos (c :: cs) [] root); auto; try lia; try discriminate.
+        apply pi_new_before.
+      + destruct fi as [|fi]; [cbn [length] in Hfi; lia|]. destruct fk as [|fk]; [cbn [length] in Hfk; lia|].
+        assert (Hok : Forall comp_ok (c :: cs)) by (apply Forall_comp_ok_of; exact Hg).
+        rewrite (search_loop_on h v Hos fi slm root root _ 0 None [] cs c Hok (pi_new_before (c :: cs))). cbv zeta.
+        rewrite root_check_kperm, Nat.eqb_refl, Hp. rewrite kwalk_S, Hd, Hp. cbn.
+        split; [|intros _ [=]]. right. split; [auto|reflexivity].
   Qed.
-
-  (* the one place where the two permission disciplines differ: the root's own search bit *)
-  Theorem bridge_root_unsearchable (c : str) (cs : list str) (follow pm md : bool) (fk cnt kroot : nat) :
-    node_is_dir h root = true -> kperm h root 1 u = false ->
-    kwalk (S fk) h u kroot pm follow root (c :: cs) cnt md = WErr EACCES.
-  Proof. intros Hd Hp. rewrite kwalk_S, Hd, Hp. reflexivity. Qed.
 End BridgeTop.
 
 (* the bridge at the level of the two entry points *)
 Theorem bridge_nolink_lookup (s : fsys) (sv : sview) (cs : list str) (slm : slmode) (follow : bool) :
   let v := sv_view sv in
   v_os v = Linux -> Forall good_comp cs -> link_free (f_heap s) (v_root v) cs = true ->
-  node_is_dir (f_heap s) (v_root v) = true -> kperm (f_heap s) (v_root v) 1 (v_user v) = true ->
+  node_is_dir (f_heap s) (v_root v) = true ->
   length cs < SEARCH_FUEL ->
   walk_rel (f_heap s) (v_user v) (v_root v) (precise_of slm)
     (search_node s v (abs_path cs) slm) (klookup s sv false follow (abs_path cs)).
 Proof.
-  intros v Hos Hg Hlf Hd Hp Hlen. rewrite (search_node_abs_path s v cs slm Hos Hg), (klookup_abs_path s sv false follow cs Hg).
+  intros v Hos Hg Hlf Hd Hlen. rewrite (search_node_abs_path s v cs slm Hos Hg), (klookup_abs_path s sv false follow cs Hg).
   apply bridge_nolink; auto.
   - unfold SEARCH_FUEL, WALK_FUEL in *. lia.
   - destruct cs; [right; reflexivity|left; reflexivity].
